@@ -29,6 +29,7 @@ import pathlib
 import pickle
 import shutil
 import tempfile
+import time
 import typing
 import datetime  # pylint: disable=unused-import
 
@@ -847,16 +848,17 @@ def expected_type(v):
 
 
 def json_roundtrip(src, form, kw=None, lkw=None, root_path=None, v=None,
-                   check_original=True):
-  """Returns (ok, kind, message, witness, r)."""
+                   check_original=True, stage=('', '')):
+  """Returns (ok, kind, message, witness, r).
+
+  `stage`: (code run before the value is written, code run before it is read
+  back) -- the state of the process (e.g. its time zone) in which the two
+  halves of the trip happen; part of the witness.  The caller restores it."""
   ser, de = _FORMS[form]
   kws = _kw_src(kw)
   lkws = _kw_src(lkw)
-  if form == 'str-indent':
-    ser = ser.format(kw=kws)
-  else:
-    ser = ser.format(kw=kws)
-  de = de.format(lkw=lkws)
+  ser = stage[0] + ser.format(kw=kws)
+  de = stage[1] + de.format(lkw=lkws)
   base = f'{_header(src + kws + lkws)}v = {src}\n{ser}\n{de}\n'
   helper = (f'from {_MOD} import assert_same, assert_wellformed\n'
             'assert_same(v, r)\nassert_wellformed(r'
@@ -3651,16 +3653,287 @@ def drv_stateful_copies(tier, seed):
   return rec.result()
 
 
+# -----------------------------------------------------------------------------
+# Members whose JSON form is produced by a registered type converter.
+# -----------------------------------------------------------------------------
+#
+# "Converting ANY serializable symbolic value to JSON (object form or string
+# form) and back yields a value that is symbolically equal to the original, has
+# the same type ..."  Values of types that are not JSON types are serializable
+# through the converters of `pg.typing.register_converter`: to_json writes
+# converter(value) (built in: datetime -> int, KeyPath -> str; user types:
+# whatever their converter returns) and the value spec of the member converts it
+# back on load.  The statement does not mention the state of the process: the
+# trip gives the original back in every time zone, and what a process in one
+# zone has written is read back by a process in another zone.
+
+
+class _C05Plain:
+  """A plain (non-symbolic) user type that converters make serializable."""
+
+  def __init__(self, *a):
+    self.a = a
+
+  def __eq__(self, other):
+    return type(other) is type(self) and other.a == self.a
+
+  def __ne__(self, other):
+    return not self.__eq__(other)
+
+  def __hash__(self):
+    return hash((type(self).__name__, self.a))
+
+  def __repr__(self):
+    return f'{type(self).__name__}({", ".join(map(repr, self.a))})'
+
+
+class C05Stamp(_C05Plain):
+  """<-> str."""
+
+
+class C05Vec(_C05Plain):
+  """<-> tuple (a structured JSON form, written through to_json again)."""
+
+
+class C05Rec(_C05Plain):
+  """<-> dict with a str and an int key."""
+
+
+class C05Two(_C05Plain):
+  """Has a converter to int AND one to str (and both ways back)."""
+
+
+def _c05_register_converters():
+  reg = pg.typing.register_converter
+  reg(C05Stamp, str, lambda x: 'S:' + x.a[0])
+  reg(str, C05Stamp, lambda s: C05Stamp(s[2:]))
+  reg(C05Vec, tuple, lambda x: tuple(x.a))
+  reg(tuple, C05Vec, lambda t: C05Vec(*t))
+  reg(C05Rec, dict, lambda x: {'n': x.a[0], 5: x.a[1]})
+  reg(dict, C05Rec, lambda d: C05Rec(d['n'], d[5]))
+  reg(C05Two, int, lambda x: x.a[0])
+  reg(int, C05Two, C05Two)
+  reg(C05Two, str, lambda x: str(x.a[0]))
+  reg(str, C05Two, lambda s: C05Two(int(s)))
+
+
+_c05_register_converters()
+
+# One class per member type: the type is declared in every way a schema can
+# declare it (annotation, Optional, default, list / dict / tuple element,
+# union candidate, nested containers) and, for the control, not at all (`any`).
+_CONV_HOLDER = """
+class {name}(pg.Object):
+  req: {T}
+  opt: typing.Optional[{T}] = None
+  dflt: {T} = {base}
+  l: typing.List[{T}] = []
+  d: typing.Dict[str, {T}] = {{}}
+  t: pg.typing.Tuple([pg.typing.Object({T}), pg.typing.Int()]).noneable() = None
+  vt: pg.typing.Tuple(pg.typing.Object({T}), max_size=3).noneable() = None
+  ld: typing.List[typing.Dict[str, {T}]] = []
+  u: typing.Union[{T}, bool, None] = None
+  any: typing.Any = None
+"""
+
+_DT = 'datetime.datetime'
+# kind -> (holder class, member type, base value, values)
+CONVERTED = {
+    'datetime': ('C05ConvDT', _DT, f'{_DT}(2001, 2, 3, 4, 5, 6)', [
+        f'{_DT}(1970, 1, 1)', f'{_DT}(1969, 12, 31, 23, 59, 59)',
+        f'{_DT}(2024, 2, 29, 12, 30, 15)', f'{_DT}(2038, 1, 19, 3, 14, 8)',
+        f'{_DT}(2100, 7, 1)', f'{_DT}(1900, 1, 1)',
+        # local times that do not exist / exist twice in the zones of _ZONES.
+        f'{_DT}(2024, 3, 10, 2, 30)', f'{_DT}(2024, 11, 3, 1, 30)',
+        f'{_DT}(2024, 9, 29, 2, 30)', f'{_DT}(2024, 4, 7, 2, 30)',
+        f'{_DT}(1, 1, 1)', f'{_DT}(9999, 12, 31, 23, 59, 59)']),
+    'keypath': ('C05ConvKP', 'pg.KeyPath', "pg.KeyPath('a')", [
+        'pg.KeyPath()', "pg.KeyPath.parse('a.b[0].c')", "pg.KeyPath(['a', 0, 'b c'])",
+        "pg.KeyPath(['a.b', -1])", r"pg.KeyPath(['\xe9\n', 'a[0]'])"]),
+    'user-type-str-form': ('C05ConvStamp', 'C05Stamp', "C05Stamp('a')", [
+        "C05Stamp('')", r"C05Stamp('\xe9\n\x00\"')", "C05Stamp('S:1')"]),
+    'user-type-tuple-form': ('C05ConvVec', 'C05Vec', 'C05Vec(1)', [
+        'C05Vec(1, 2.5)', "C05Vec((1,), 'a', None)", "C05Vec([1, {'k': (2,)}])"]),
+    'user-type-dict-form': ('C05ConvRec', 'C05Rec', 'C05Rec(1, 2)', [
+        "C05Rec('x', (2,))", 'C05Rec(None, [1.5])']),
+    'user-type-two-json-forms': ('C05ConvTwo', 'C05Two', 'C05Two(0)', [
+        'C05Two(5)', 'C05Two(-1)', 'C05Two(10**20)']),
+}
+for _kind, (_name, _t, _base, _) in CONVERTED.items():
+  exec(_CONV_HOLDER.format(name=_name, T=_t, base=_base), globals())  # pylint: disable=exec-used
+
+_ENV.update(C05Stamp=C05Stamp, C05Vec=C05Vec, C05Rec=C05Rec, C05Two=C05Two,
+            **{n: globals()[n] for n, _, _, _ in CONVERTED.values()})
+
+# (position, group, template): H holder class, b base value, x the value.
+CONV_POSITIONS = [
+    ('required-field', 'typed-member', '{H}({x})'),
+    ('optional-field', 'typed-member', '{H}({b}, opt={x})'),
+    ('field-with-a-default', 'typed-member', '{H}({b}, dflt={x})'),
+    ('list-element', 'typed-member', '{H}({b}, l=[{x}, {b}])'),
+    ('dict-value', 'typed-member', "{H}({b}, d={{'k': {x}}})"),
+    ('fixed-tuple-element', 'typed-member', '{H}({b}, t=({x}, 1))'),
+    ('variable-tuple-element', 'typed-member', '{H}({b}, vt=({x}, {x}))'),
+    ('dict-in-list-value', 'typed-member', "{H}({b}, ld=[{{'k': {x}}}, {{}}])"),
+    ('union-candidate', 'union-member', '{H}({b}, u={x})'),
+]
+# where the object that declares the member is.
+CONV_WRAPPERS = ['pg.Dict(a={o})', '[0, {o}]', 'C05Pair({o}, right={o})', '({o},)']
+# the same values where no value spec says what they are.
+CONV_UNTYPED = ['{H}({b}, any={x})', 'pg.Dict(a={x})', 'pg.List([{x}])', '[{x}]',
+                "{{'k': {x}}}", 'C05Leaf({x})', '({x},)']
+
+# "... value specs and schemas ...": the value as the default of a spec.
+CONV_SPECS = ['pg.typing.Object({T}, default={x})',
+              'pg.typing.List(pg.typing.Object({T}), default=[{x}])',
+              "pg.typing.Dict([('a', pg.typing.Object({T}, default={x})), ('b', pg.typing.Object({T}).noneable())])",
+              "pg.typing.Schema([pg.typing.Field('a', pg.typing.Object({T}, default={x}))])"]
+
+# POSIX TZ strings (no time zone database needed): west of / east of UTC, with a
+# fraction of an hour, daylight saving on the northern / southern calendar.
+_ZONES = [('tz-as-found', None), ('tz-utc', 'UTC0'),
+          ('tz-non-utc', 'PST8PDT,M3.2.0,M11.1.0'), ('tz-non-utc', 'IST-5:30'),
+          ('tz-non-utc', 'NZST-12NZDT,M9.5.0,M4.1.0/3')]
+_TZ_CODE = "import os, time\nos.environ['TZ'] = {z!r}; time.tzset()\n"
+
+
+class _TzRestored:
+  """Puts the time zone of the process back (cases change it)."""
+
+  def __enter__(self):
+    self._old = os.environ.get('TZ')
+
+  def __exit__(self, *unused):
+    if self._old is None:
+      os.environ.pop('TZ', None)
+    else:
+      os.environ['TZ'] = self._old
+    time.tzset()
+
+
+def _conv_case(rec, cid, src, form, extra=(), kw=None, zone=None, read_zone=None, thorough=False):
+  stage = (_TZ_CODE.format(z=zone) if zone else '',
+           _TZ_CODE.format(z=read_zone) if read_zone else '')
+  try:
+    with _TzRestored():
+      ok, kind, msg, wit, _ = json_roundtrip(src, form, kw=kw, stage=stage, check_original=thorough)
+  except Exception as e:  # harness problem: surface it.  pylint: disable=broad-except
+    ok, kind, msg, wit = False, 'harness', f'{type(e).__name__}: {e}', src
+  rec.case(cid, (src, form, zone, read_zone) + tuple(extra), ok,
+           f'[{kind}{", TZ=" + zone if zone else ""}{", read with TZ=" + read_zone if read_zone else ""}] {msg}',
+           wit)
+  return ok
+
+
+def drv_converter_members(tier, seed):
+  rec = Recorder(
+      'C05', 'members serialized through registered type converters (datetime, KeyPath, user types)',
+      scope='member types: datetime.datetime (12 values incl. epoch, pre-epoch, leap day, 2038, years 1 / 9999, '
+            'local times skipped / repeated by daylight saving), pg.KeyPath (5), 4 user types registered with '
+            'pg.typing.register_converter (str / tuple / dict JSON form, two JSON forms); declared in 9 positions '
+            '(annotation, Optional, default, list / dict / fixed + variable tuple element, dict in list, union '
+            'candidate) of an object at the root / below dict, list, object, tuple, and as default of 4 value specs / schemas; forms to_json, to_json_str, '
+            'pg.save/pg.load, open_jsonl, hide_default_values; datetime: process time zone as found, UTC and 3 '
+            'non-UTC POSIX zones, writer and reader in different zones; controls pickle / deepcopy; '
+            'the same values in 7 untyped positions; sub-second and tz-aware datetimes; KeyPath with an empty key')
+  r = rng(seed, 'c05-conv')
+  thorough = tier == 'thorough'
+  case = functools.partial(_conv_case, rec, thorough=thorough)
+  all_forms = ['obj', 'str', 'save-load', 'open_jsonl']
+  for kind, (holder, _, base, values) in CONVERTED.items():
+    vals = [base] + values
+    is_dt = kind == 'datetime'
+    for zi, (zlabel, zone) in enumerate(_ZONES if is_dt else _ZONES[:1]):
+      sfx = f'/{zlabel}' if is_dt else ''
+      # every value in every zone where the member is simply declared; every
+      # way of declaring it with every value (thorough) / two values, in every
+      # zone (thorough) / the zone found (quick): where the conversion happens
+      # does not depend on the zone, what it yields not on where it happens.
+      for pi, (pos, group, tpl) in enumerate(CONV_POSITIONS):
+        if pi and zi and not thorough:
+          continue
+        xs = vals if (thorough or not pi) else [vals[1], r.choice(vals[1:])]
+        forms = all_forms if (thorough or (pi in (0, 3) and not zi)) else all_forms[:2]
+        for x in xs:
+          for form in forms:
+            case(f'converter-json/{kind}/{group}{sfx}',
+                       tpl.format(H=holder, b=base, x=x), form, (pos,), zone=zone)
+      # value specs / schemas that hold such a value as a default.
+      for tpl in CONV_SPECS:
+        for x in (vals if thorough else [r.choice(vals)]):
+          for form in ('obj', 'str'):
+            case(f'converter-json/{kind}/default-of-a-value-spec{sfx}',
+                 tpl.format(H=holder, T=CONVERTED[kind][1], x=x), form, zone=zone)
+      if zi > 2 and not thorough:
+        continue
+      # a member that holds its default / another value, defaults left out.
+      for x in (None, vals[1]):
+        src = f'{holder}({base})' if x is None else f'{holder}({base}, dflt={x})'
+        for form in ('obj', 'str'):
+          case(f'converter-json/{kind}/typed-member{sfx}/hide_default_values', src, form,
+                     kw=dict(hide_default_values='True'), zone=zone)
+      if zi and not thorough:
+        continue
+      # the declaring object below other containers.
+      for w in CONV_WRAPPERS:
+        for x in (vals if thorough else [r.choice(vals[1:])]):
+          for form in ('obj', 'str'):
+            case(f'converter-json/{kind}/typed-member{sfx}',
+                       w.format(o=f'{holder}({x}, l=[{x}])'), form, ('wrapped',), zone=zone)
+    # written by a process in one zone, read by a process in another.
+    if is_dt:
+      named = [z for _, z in _ZONES if z]
+      combos = [(tpl, form) for tpl in ('{H}({x})', '{H}({b}, l=[{x}, {b}])') for form in ('str', 'save-load')]
+      for i, (zw, zr) in enumerate(itertools.permutations(named, 2)):
+        for j, x in enumerate(vals if thorough else r.sample(vals, 3)):
+          for tpl, form in (combos if thorough else [combos[(i + j) % 4]]):
+            case('converter-json/datetime/typed-member/tz-differs-between-writer-and-reader',
+                       tpl.format(H=holder, b=base, x=x), form, zone=zw, read_zone=zr)
+    # controls that do not go through JSON.
+    for method in ('deepcopy', 'pickle'):
+      for x in (vals if thorough else [vals[0], r.choice(vals[1:])]):
+        for tpl in (('{H}({x})',) if thorough else ()) + (
+            "{H}({b}, l=[{x}], d={{'k': {x}}}, t=({x}, 1), u={x}, any={x})",):
+          src = tpl.format(H=holder, b=base, x=x)
+          try:
+            ok, ckind, msg, wit = copy_check(src, method)
+          except Exception as e:  # pylint: disable=broad-except
+            ok, ckind, msg, wit = False, 'harness', f'{type(e).__name__}: {e}', src
+          rec.case(f'converter-copy/{method}/{kind}', (src, method), ok, f'[{method}: {ckind}] {msg}', wit)
+    # no value spec at the position of the value: nothing but the JSON itself
+    # can say what the value was.
+    for tpl in CONV_UNTYPED:
+      for x in (vals if thorough else vals[:1]):
+        for form in ('obj', 'str'):
+          case('converter-json/value-in-untyped-position',
+                     tpl.format(H=holder, b=base, x=x), form, (kind,))
+  # values of a converted type that the JSON form of the type cannot express.
+  for cid, xs in (
+      ('converter-json/datetime/sub-second-part',
+       [f'{_DT}(2020, 1, 1, 0, 0, 0, 5)', f'{_DT}(1969, 12, 31, 23, 59, 59, 999999)', f'{_DT}.max']),
+      ('converter-json/datetime/tz-aware',
+       [f'{_DT}(2020, 1, 1, tzinfo=datetime.timezone.utc)',
+        f'{_DT}(2020, 1, 1, 12, tzinfo=datetime.timezone(datetime.timedelta(hours=2)))']),
+      ('converter-json/keypath/empty-string-key', ["pg.KeyPath([''])", "pg.KeyPath(['a', ''])"])):
+    holder = 'C05ConvKP' if 'keypath' in cid else 'C05ConvDT'
+    for x in xs:
+      for tpl in ('{H}({x})', "{H}({x}, l=[{x}], d={{'k': {x}}})"):
+        for form in ('obj', 'str'):
+          case(cid, tpl.format(H=holder, x=x), form)
+  return rec.result()
+
+
 DRIVERS = [drv_json_values, drv_typed_objects, drv_loader_options, drv_writer_options,
            drv_same_name_symbols, drv_specs,
            drv_geno_dna,
            drv_file_systems, drv_sequences, drv_pickle_deepcopy, drv_functor_copies,
-           drv_stateful_copies]
+           drv_stateful_copies, drv_converter_members]
 
 
 def replay(rec):
   """Re-executes rec['witness']; returns (ok, message)."""
   cwd = os.getcwd()
+  tz = os.environ.get('TZ')
   try:
     exec(rec['witness'], {'__name__': '__c05_witness__'})  # pylint: disable=exec-used
     return True, 'witness passes'
@@ -3668,3 +3941,9 @@ def replay(rec):
     return False, f'{type(e).__name__}: {e}'
   finally:
     os.chdir(cwd)
+    if os.environ.get('TZ') != tz:     # witnesses of drv_converter_members set it.
+      if tz is None:
+        os.environ.pop('TZ', None)
+      else:
+        os.environ['TZ'] = tz
+      time.tzset()
